@@ -20,7 +20,8 @@ def main(argv):
         res = getattr(mod, fnname)(timeout=timeout, **args)
         out.update(res)
     except BaseException as e:  # noqa: BLE001 - worker boundary
-        out["verdict"] = "error"
+        # code shapes the encoders do not support are inconclusive, never a pass and never an alarm
+        out["verdict"] = "inconclusive" if type(e).__name__ == "Unsupported" else "error"
         out["detail"] = "".join(traceback.format_exception(e))[-3000:]
     out["wall_s"] = round(time.time() - t0, 2)
     print("RESULT " + json.dumps(out, default=str))
